@@ -546,3 +546,41 @@ def known_state(R, ctx, rid):
         R.ob(rid, fn, "holes:" + site, ok,
              "every recorded hole of the client is removed from the known state (start = skip.start, len = skip.end - skip.start)" if ok else
              "hole removal is remove_range(%s): start=%s len=%s from-skips=%s per-element=%s narrowed by %s" % (sshow(a, 6), start_ok, len_ok, src, inloop, bad[:2]), cs.loc())
+
+
+# functions that consume text units one element at a time: (function, effect callee, kinds that must reach it, kinds that must not)
+TEXT_UNIT_CONSUMERS = [
+    ("yrs::types::text::remove", "yrs::transaction::TransactionMut::delete", {"String", "Embed", "Type"}, {"Format", "Deleted"},
+     "remove_range / apply_delta(delete) delete every visible unit in the range: string slices, embedded values and embedded shared types"),
+    ("yrs::types::text::find_position", "yrs::block::Item::content_len", {"String", "Embed", "Type"}, {"Format"},
+     "an index counts string units, embedded values and embedded shared types (formatting marks take no room)"),
+]
+
+
+def text_units(R, ctx, rid):
+    """which content kinds count as a unit of a text: the arms of the per-item `match item.content` in the unit consumers."""
+    Y = ctx.yrs
+    R.rule(rid, "R-TABLE text units: a text is a sequence of string units, embedded values (Embed) and embedded shared types (Type) "
+                "— the three kinds Text::insert / insert_embed create; in every function that consumes units item by item "
+                "(text::remove behind remove_range and apply_delta, text::find_position behind every index) the consuming effect is "
+                "reachable for all three kinds and for no formatting mark / tombstone content, and only for items that are not "
+                "deleted: an arm list that leaves a kind out steps over that element without counting it, so the wrong units "
+                "are removed or the index lands elsewhere")
+    n = 0
+    for path, callee, need, forbid, why in TEXT_UNIT_CONSUMERS:
+        fn = Y.fn(path)
+        v = FnView(fn)
+        css = [c for c in fn.calls_to(callee) if fn.cfg().in_loop(c.bb)]
+        R.floor(rid, "%s: %s inside the walk" % (path.rsplit("::", 1)[-1], callee.rsplit("::", 1)[-1]), len(css), 1)
+        for cs, site in ordinal_sites(css):
+            ks, used = kinds_reaching(Y, fn, cs.bb)
+            live = any(lit_call(l, "yrs::block::Item::is_deleted", False) for l in v.guards(cs.bb))
+            n += 1
+            missing = need - ks
+            extra = ks & forbid
+            ok = not missing and not extra and live and used >= 1
+            R.ob(rid, fn, "units:" + site, ok,
+                 "%s under kinds %s, live items only — %s" % (callee.rsplit("::", 1)[-1], sorted(ks), why) if ok else
+                 "%s is reached for kinds %s: missing %s, must-not %s, live-only=%s, content switches=%d — %s" %
+                 (callee.rsplit("::", 1)[-1], sorted(ks), sorted(missing), sorted(extra), live, used, why), cs.loc())
+    R.floor(rid, "text unit consumers", n, 2)
